@@ -111,6 +111,14 @@ func (d *StreamingBlockDecoder) DecodeWithOffsets() (*BlockTransactionOffsets, e
 		return d.offsets, nil
 	}
 
+	// Shelley+ blocks have at least 4 elements. A 3-element block that is not a
+	// Byron main block (a Byron epoch boundary block: [header, stakeholder_ids,
+	// extra]) has no transaction segments.
+	if len(blockArray) < 4 {
+		d.offsets.Transactions = []TransactionLocation{}
+		return d.offsets, nil
+	}
+
 	// Shelley+ block layout: [header, tx_bodies[], witnesses[], metadata_map, invalid_txs[]]
 	// Use the size of the header as it is actually encoded (it may use a
 	// non-minimal length argument or be indefinite-length)
